@@ -60,6 +60,22 @@ CLAIMED = {
    note="Even k for N>6 is explored, not proved. Known finding: odd k. No axioms.",
    technique="Coq proofs (size, quadratic-form refutation) + kernel computation over the verified closure + exact set comparison",
    design="6 C07"),
+ "C11": dict(
+   text="Mostly differential exploration judged by a proved validator; said plainly: the proof technique contributes the judge, not the comparison. Proved: two reductions of one input that both pass reduction_ok generate the same closure (C11_two_valid_reductions_same_closure); RecordGraph.get_graph returns the closest earlier graph frame (C11_get_graph). Per run: classification without and with a recorder in one worker — summand multisets, dependents as sets, both reductions validated (closure part n<=6/7), last graph frame of each builder vs that component's vertices, last frame overall vs all canonical vertices.",
+   note="Three known findings (drifted recording twin: attaches a dependent vertex; drops an independent generator; frames are per component). The recording builder is not modelled. No axioms.",
+   technique="differential run of the two builders, judged by the Coq-verified reduction validator",
+   category="proof",
+   design="6 C11"),
+ "C19": dict(
+   text="Partial proof + exhaustive exploration of the stated range. Proved: the three table entries wrong at n=3 (C19_refuted_n3, kernel computation with the verified closure); for EVERY n the families over {I,X} (a0, b0, b1) generate exactly their own translates (C19_IX_families). Per run: all 28 families x n=3..6 (8 thorough): table entry and classifier answer vs invariants of the verified closure; n up to 12 (16): classifier vs table, all residues of n mod 8 and mod 6.",
+   note="'For every n>=3' for the other 25 families is the two-local classification (Wiersema et al.), not proved. Known findings (a11,3), (a12,3), (a17,3). No axioms.",
+   technique="Coq-verified closure oracle as judge over the enumerated range + kernel computation for the refutation",
+   design="6 C19"),
+ "C20": dict(
+   text="Proof of closure/count preservation + exploration. Proved for every n: any sequence of the optimiser's moves (replace x by x.y for an anticommuting pair of current generators, i.e. an entry of list_connections) preserves the commutator closure and the number of generators, whatever the greedy/random choices (C20_contractions_preserve). Termination of the retry loop and distinctness of the output are explored: su(2^n) inputs (two-local families, even-k universal sets) at n=3..5 (6) under several random seeds with a watchdog, output judged by the verified closure.",
+   note="Termination and distinctness are observed, not proved (partial). The sequence of contractions chosen by the implementation is not extracted; only its result is judged. No axioms.",
+   technique="Coq invariance proof over arbitrary contraction sequences + seeded exploration judged by the closure oracle",
+   design="6 C20"),
  "C04": dict(
    text="Proof: Coq theorems C04_product/commute/adjoint/conj/reject hold for every n and every pair of strings, about a bit-level model of PauliString.sign/commutes_with/multiply/adjoint_map/complex_conj and the Kronecker-product matrices over Z[i]. The model is tied to /repo on every run by a correspondence run: all 16^n pairs n<=3 (n<=4 thorough) plus random pairs up to n=64 and all length mismatches, implementation vs extracted model, and numpy matrices multiplied out for n<=3.",
    note="Trusted: Coq kernel, extraction (ExtrOcamlBasic), OCaml driver, Python harness; numpy kron/@ taken as the matrices. No axioms (Print Assumptions: closed).",
